@@ -59,3 +59,39 @@ Proof.
   replace (psum l) with (Cplus (Cminus (psum l) (psum (select m l))) (psum (select m l))) by (apply injective_projections; simpl; ring).
   rewrite H0. apply injective_projections; simpl; ring.
 Qed.
+
+(* ---------------------------------------------------------------- the bound on the MODEL's own pruning mask
+   [shiftnd] over the complex instance: for any batch entry o of the relocated amplitudes, the value
+   sum_j chi_j F+_j(o) reconstructed before and after pruning with the mask keep_centre (nonzero_mask negl ..)
+   differs by at most eps per removed state, provided the tolerance test [negl] implies |F+| <= eps *)
+From EPG Require Import Scalar State CInst ListLemmas PruneProofs.
+
+Lemma nth_map_seq {B} (f : nat -> B) n j d : (j < n)%nat -> nth j (map f (seq 0 n)) d = f j.
+Proof.
+  intros Hj. rewrite (nth_indep _ d (f 0%nat)) by now rewrite map_length, seq_length.
+  rewrite (map_nth f (seq 0 n) 0%nat j). now rewrite seq_nth.
+Qed.
+
+Theorem prune_step_bound_model (negl : triple Cops -> bool) (eps : R) (keys : list key)
+    (amps : list (list (triple Cops))) (dk : key) (kdim : nat) (nmax : option Z) (chi : nat -> C) (o : list (triple Cops)) :
+  let p := shiftnd_plan keys dk kdim nmax in
+  let n2 := length (pk p) in
+  let outs := map (relocate p) amps in
+  let mask := keep_centre (nonzero_mask negl n2 outs) in
+  let l := map (fun j => (chi j, fp (nth j o t0))) (seq 0 n2) in
+  0 <= eps ->
+  (forall t : triple Cops, negl t = true -> Cmod (fp t) <= eps) ->
+  (forall j, Cmod (chi j) <= 1) ->
+  In o outs ->
+  Cmod (Cminus (psum l) (psum (select mask l))) <= eps * INR (nremoved mask).
+Proof.
+  intros p n2 outs mask l Heps Hnegl Hchi Ho.
+  assert (length l = n2) as Hl by (unfold l; now rewrite map_length, seq_length).
+  assert (length mask = n2) as Hm by (unfold mask; now rewrite keep_centre_length, nonzero_mask_length).
+  apply prune_value_bound; [exact Heps|transitivity n2; [exact Hm|symmetry; exact Hl]| |].
+  - intros j Hj0. assert (j < n2)%nat as Hj by (rewrite <- Hl; exact Hj0). unfold l. rewrite nth_map_seq by exact Hj. apply Hchi.
+  - intros j Hj0 Hf. assert (j < n2)%nat as Hj by (rewrite <- Hl; exact Hj0). unfold l. rewrite nth_map_seq by exact Hj. cbn [snd].
+    apply Hnegl.
+    apply (prune_removes_only_negligible Cops negl keys amps dk kdim nmax j Hj); [|exact Ho].
+    rewrite (nth_indep _ false true) by (fold p; fold n2; fold outs; fold mask; lia). exact Hf.
+Qed.
